@@ -77,6 +77,10 @@ const nameAlpha = "abcdefghijklmnopqrstuvwxyzABCDEFGHIJ0123456789_+=,@"
 // NameComponent draws one path component (no '/', no NUL, not "." or "..").
 func (g *Gen) NameComponent(plain bool) string {
 	g.n++
+	if g.R.Intn(25) == 0 {
+		// names that contain the names the harness gives to modules and roots
+		return []string{"mod", "old-mod", "mod.bak", "xmodx", "src", "dst", "rw", "ro"}[g.R.Intn(8)]
+	}
 	if plain || g.R.Intn(4) != 0 || (g.NoOddDirNames && g.forDir) {
 		n := 1 + g.R.Intn(8)
 		b := make([]byte, n)
@@ -85,7 +89,11 @@ func (g *Gen) NameComponent(plain bool) string {
 		}
 		return string(b)
 	}
-	switch g.R.Intn(8) {
+	switch g.R.Intn(10) {
+	case 8:
+		return fmt.Sprintf("trail%d ", g.n) // ends in whitespace
+	case 9:
+		return fmt.Sprintf("%c%d", "#$!+,"[g.R.Intn(5)], g.n) // sorts before '.'
 	case 0:
 		return fmt.Sprintf("sp ace %d", g.n)
 	case 1:
